@@ -1,6 +1,9 @@
+#![allow(dead_code)]
 #![recursion_limit = "512"]
 mod common;
+mod dev;
 mod props;
+mod vsh;
 
 use common::Tier;
 
@@ -9,6 +12,9 @@ fn main() {
     if args.len() < 2 {
         eprintln!("usage: yv <property> [--tier quick|thorough] [--replay file]");
         std::process::exit(2);
+    }
+    if args[1] == "sh" {
+        std::process::exit(dev::main(&args[2..]));
     }
     let id = args[1].to_uppercase();
     let mut tier = match std::env::var("VERIF_TIER").as_deref() {
